@@ -189,6 +189,10 @@ def _names_of(ob):
     """(gro names, top names or None) of an observation"""
     if ob[0] == "M":
         return [g[2] for g, _ in ob[2]], [t[0] for _, t in ob[2]]
+    if ob[0] == "MR":
+        # (a molecule whose residues hold fewer atoms than its topology, after `remove_atom`: the views pair the
+        # atoms that are left with the first topology atoms; what happens to the rest of the topology is not judged)
+        return [g[2] for res in ob[3] for g in res], None
     if ob[0] == "R":
         return [g[2] for g in ob[1]], None
     return None, None
@@ -198,6 +202,9 @@ def _strip_names(ob):
     """the observation with every atom name blanked (what `update_from_molecule_top` must leave as it was)"""
     if ob[0] == "M":
         return ("M", ob[1], tuple(((g[0], g[1], "", g[3], g[4], g[5]), ("",) + tuple(t[1:])) for g, t in ob[2]))
+    if ob[0] == "MR":
+        return ("MR", ob[1], tuple(("",) + tuple(t[1:]) for t in ob[2]),
+                tuple(tuple((g[0], g[1], "", g[3], g[4], g[5]) for g in res) for res in ob[3]))
     if ob[0] == "R":
         return ("R", tuple((g[0], g[1], "", g[3], g[4], g[5]) for g in ob[1]))
     return ob
@@ -397,6 +404,17 @@ def do_step_y(ctx, c18, w, rng, mode, op, i, rec):
         if st == "ok":
             w.extra[-1] = c18.to_pyval(ret[0])
         ctx.count(f"index:{kind}:{how}:{st}")
+        if st != "ok":
+            # "not found" is reported with a message that formats the argument: an argument whose `str` raises (a
+            # Residue emptied by `remove_atom`) makes the refusal carry THAT exception class.  The clause is about which
+            # index is answered; for a refusal only "it is refused" is compared.
+            try:
+                with warnings.catch_warnings():
+                    warnings.simplefilter("ignore")
+                    str(p)
+            except Exception:   # noqa: BLE001
+                w.any_error.add(len(w.status) - 1)
+                ctx.count("index:argument-without-str")
         if kind == "mol":
             # the clause, with the library's own `==` on the atoms the molecule hands out
             try:
@@ -409,7 +427,7 @@ def do_step_y(ctx, c18, w, rng, mode, op, i, rec):
             got = ret[0] if st == "ok" else st
             ctx.oracle_ok(1)
             if isinstance(want, int) or want == "ValueError":
-                if got != want:
+                if got != want and not (want == "ValueError" and st != "ok" and (len(w.status) - 1) in w.any_error):
                     ctx.oracle_fail("c18:index:not-the-first-equal-atom", case, {"op": w.desc[-1], "got": got, "want": want})
                 if how == "own-view" and isinstance(want, int) and w.meta[j].get("k") == want:
                     ctx.count("index:own-view-found-at-its-position")
@@ -429,7 +447,10 @@ def do_step_y(ctx, c18, w, rng, mode, op, i, rec):
             st, _ = w.run(f"resnamebad {i}", f"{kind}[{i}].resname=7", fn)
         ctx.count(f"{op}:{kind}:{st}")
         ctx.oracle_ok(1)
-        if st == "ok":
+        if op == "idsbad" and nn == 0 and nl == 0:
+            # the EMPTY list for an object without atoms (a residue emptied by `remove_atom`) holds no ill-typed value
+            ctx.count("idsbad:empty-list-for-an-empty-object:" + st)
+        elif st == "ok":
             ctx.oracle_fail(f"c18:setter:ill-typed-value-accepted:{op}", case, {"op": w.desc[-1]})
     elif op == "hash":
         st, ret = w.run(f"hash {i}", f"hash(atom[{i}])", lambda: (hash(o),))
